@@ -578,11 +578,14 @@ impl Exec {
     }
 
     fn step(&mut self, op: &Op, out: &mut String) {
+        // make the op visible before it runs: if the process aborts inside it (a panic while unwinding), the
+        // transcript ends with this line and the check can rebuild the failing script from it
+        out.push_str(&show_op(op));
+        flush(out);
         let r = catch_unwind(AssertUnwindSafe(|| self.step_inner(op)));
         let res = r.unwrap_or_else(|_| "panic".into());
         let cs_op = !matches!(op, Op::Create | Op::Skip(_) | Op::Del(_) | Op::Ins(..) | Op::Rem(..));
         let drops = drops_take();
-        out.push_str(&show_op(op));
         out.push_str(" => ");
         out.push_str(&res);
         if cs_op {
@@ -783,6 +786,7 @@ fn flush(out: &mut String) {
     let so = std::io::stdout();
     let mut l = so.lock();
     l.write_all(out.as_bytes()).unwrap();
+    l.flush().unwrap();
     out.clear();
 }
 
@@ -804,9 +808,6 @@ fn main() {
                 let len = rng.range(3, maxlen.max(3) as u64) as usize;
                 out.push_str(&format!("case {}{}-{}\n", if stale { "t" } else { "g" }, c, sub));
                 run_random(&mut rng, len, stale, &mut out);
-                if out.len() > 1 << 16 {
-                    flush(&mut out);
-                }
             }
         }
         Some("run") => {
